@@ -304,9 +304,8 @@ def main(argv=None):
         f"distinct_nontrivial={distinct} excluded_known={sum(excluded.values())} "
         f"inconclusive={len(inconclusive)} wall={evidence['wall_s']}s"
     )
-    for k, v in excluded.items():
-        if k not in known_confirmed:
-            print(f"KNOWN-FINDING: property={prop} sig={k} :: (met {v}x during search)")
+    for k, v in sorted(excluded.items()):
+        print(f"  excluded (listed known finding) {v}x: {k}")
     for path, sig, msg in violations:
         print(f"  violation: {sig} :: {msg[:600]}")
         print(f"VIOLATION property={prop} replay={path}")
